@@ -136,6 +136,8 @@ func (v *vset) add(key, desc string, replay any, size int) {
 	}
 }
 
+func (v *vset) empty() bool { v.mu.Lock(); defer v.mu.Unlock(); return len(v.m) == 0 }
+
 func (v *vset) flush(rep interface {
 	Violate(key, desc string, replay any)
 }) {
